@@ -1,0 +1,15 @@
+//go:build verif
+
+package render
+
+import (
+	"fmt"
+	"math"
+)
+
+// VerifGlobals serialises every package-level variable of this package. It
+// exists only under the verif build tag and is used by external monitors to
+// observe that no operation writes to package-level data.
+func VerifGlobals() []byte {
+	return []byte(fmt.Sprintf("%08x|%08x", math.Float32bits(negativeInfinity), math.Float32bits(positiveInfinity)))
+}
